@@ -102,8 +102,10 @@ def strategy(draw):
     perm_seed = draw(st.integers(0, 1000))
     poly = [draw(gen.floats(-2, 2)) for _ in range(4)]
     const = draw(st.one_of(gen.floats(0, 5), gen.log_floats(1e-9, 1e9)))
+    # storage type of the spectrum handed to the operator (counts are integers; single precision is common)
+    dtype = draw(gen.choice(["float64", "float64", "float64", "float32", "int64", "int32", "uint16", "float64"]))
     return dict(n=n, dt=dt, op=op, bw=bw, rows=rows, fcs=fcs, alpha=alpha, beta=beta,
-                perm_seed=perm_seed, poly=poly, const=const)
+                perm_seed=perm_seed, poly=poly, const=const, dtype=dtype)
 
 
 # -- check ------------------------------------------------------------------
@@ -118,7 +120,8 @@ def warmup():
     f = np.fft.rfftfreq(64, 0.01)
     s = np.ones((2, len(f)))
     for name, fn in ops.items():
-        fn(f, s, np.array([5.0, 10.0]), 9 if name == "savitzky_and_golay" else gen.DEFAULT_BW[name])
+        for dt_ in ("float64", "float32", "int64", "int32", "uint16"):
+            fn(f, s.astype(dt_), np.array([5.0, 10.0]), 9 if name == "savitzky_and_golay" else gen.DEFAULT_BW[name])
 
 
 def check_case(case):
@@ -128,11 +131,28 @@ def check_case(case):
     f = np.fft.rfftfreq(n, dt)
     nf = len(f)
     spec = np.array([expand_spectrum(r, nf) for r in case["rows"]])
+    dtype = case.get("dtype", "float64")
+    if dtype != "float64":
+        # the values are first made representable in the storage type; the reference works on exactly those values
+        if dtype == "float32":
+            stored = spec.astype(np.float32)
+        else:
+            top = np.iinfo(dtype).max
+            m = float(np.max(spec))
+            stored = np.round(spec / m * min(top, 60000) if m > 0 else spec).astype(dtype)
+        spec_in = stored
+        spec = stored.astype(np.float64)
+    else:
+        spec_in = spec
     fcs = np.array(case["fcs"], dtype=float)
-    labels = [op]
+    labels = [op, f"dtype={dtype}"]
+    # single-precision storage: the compiled kernels may accumulate in single precision (numba's scalar x float32-array rule)
+    RT = 1e-9 if dtype != "float32" else 3e-5
+    RT12 = 1e-12 if dtype != "float32" else 3e-5
     scale = max(float(np.max(np.abs(spec))), 1e-300)
 
-    out = sut(fn, f, spec, fcs, bw, what=op)
+    out = sut(fn, f, spec_in, fcs, bw, what=op)
+    out = np.asarray(out)
     require(isinstance(out, np.ndarray) and out.shape == (spec.shape[0], len(fcs)),
             f"{op}: output shape {getattr(out, 'shape', None)} != {(spec.shape[0], len(fcs))}")
     ref, amb = oracle.ref_smooth(op, f, spec, fcs, bw)
@@ -140,7 +160,7 @@ def check_case(case):
     if amb.any():
         labels.append("boundary-ambiguous-centre")
     # (a) reference model
-    if not close(out[:, keep], ref[:, keep], rtol=1e-9, atol=1e-12 * scale):
+    if not close(out[:, keep], ref[:, keep], rtol=RT, atol=RT12 * scale):
         j = int(np.argmax(np.max(np.abs(out[:, keep] - ref[:, keep]), axis=0)))
         jj = int(np.flatnonzero(keep)[j])
         raise Violation(f"{op}(bw={bw}) differs from the published kernel average at fc={fcs[jj]!r}: "
@@ -180,7 +200,7 @@ def check_case(case):
     outc = sut(fn, f, np.full((2, nf), c), fcs, bw, what=op)
     sel = keep & nonempty
     # "exactly" = up to the rounding of sum(w*c)/sum(w) over at most a few thousand samples
-    okc = close(outc[:, sel], c, rtol=1e-12, atol=1e-300)
+    okc = close(outc[:, sel], c, rtol=1e-12, atol=1e-300)      # (constant spectrum is passed as float64)
     if not okc:
         raise Violation(f"{op}(bw={bw}): constant spectrum {c!r} not reproduced: {outc[:, sel].ravel()[:4].tolist()} at fcs {fcs[sel][:4].tolist()}")
     sel0 = keep & ~nonempty
@@ -191,7 +211,7 @@ def check_case(case):
         for j in np.flatnonzero(keep & nonempty):
             lo = spec[:, masks[j]].min(axis=1)
             hi = spec[:, masks[j]].max(axis=1)
-            tol = 1e-12 * np.abs(hi) + 1e-300   # subnormal samples lose precision
+            tol = RT12 * np.abs(hi) + 1e-300   # subnormal samples lose precision
             if np.any(out[:, j] < lo - tol) or np.any(out[:, j] > hi + tol):
                 raise Violation(f"{op}: output {out[:, j].tolist()} at fc={fcs[j]!r} outside [min, max] of contributing samples "
                                 f"[{lo.tolist()}, {hi.tolist()}]")
@@ -223,16 +243,16 @@ def check_case(case):
         comb = al * spec[0] + be * spec[1]
         outl = sut(fn, f, comb[None, :], fcs, bw, what=op)
         expect = al * out[0] + be * out[1]
-        require(close(outl[0, keep], expect[keep], rtol=1e-9, atol=1e-12 * max(float(np.max(np.abs(comb))), 1e-300)),
+        require(close(outl[0, keep], expect[keep], rtol=RT, atol=RT12 * max(float(np.max(np.abs(comb))), 1e-300)),
                 f"{op}: not linear: op({al}*S1+{be}*S2) != {al}*op(S1)+{be}*op(S2); rel err {rel_err(outl[0, keep], expect[keep]):.3g}")
         # (f) row independence, bit for bit
         for i in range(spec.shape[0]):
-            alone = sut(fn, f, spec[i:i + 1].copy(), fcs, bw, what=op)
+            alone = sut(fn, f, spec_in[i:i + 1].copy(), fcs, bw, what=op)
             if not same_bits(alone[0], out[i]):
                 raise Violation(f"{op}: row {i} smoothed alone differs from the same row smoothed jointly "
                                 f"(max abs diff {np.max(np.abs(alone[0] - out[i])):.3g})")
         perm = np.random.Generator(np.random.PCG64(case["perm_seed"])).permutation(spec.shape[0])
-        outp = sut(fn, f, spec[perm].copy(), fcs, bw, what=op)
+        outp = sut(fn, f, spec_in[perm].copy(), fcs, bw, what=op)
         require(same_bits(outp, out[perm]), f"{op}: permuting the rows does not permute the output")
         labels.append("multi-row")
 
@@ -248,14 +268,14 @@ def check_case(case):
         a = sut(core_fn, spec, pos.astype(np.int64), coefficients, norm, what="_savitzky_and_golay")
         if hasattr(core_fn, "py_func"):
             b = sut(core_fn.py_func, spec, pos.astype(np.int64), coefficients, norm, what="_savitzky_and_golay.py_func")
-            require(close(a, b, rtol=1e-12, atol=1e-14 * scale), "savitzky_and_golay: compiled core differs from its interpreted source")
+            require(close(a, b, rtol=RT12, atol=max(RT12, 1e-14) * scale), "savitzky_and_golay: compiled core differs from its interpreted source")
             labels.append("compiled-vs-interpreted")
     elif pyf is not None:
         sub = np.arange(len(fcs))
         if nf * len(fcs) > 12000:
             sub = sub[:max(1, 12000 // nf)]
-        b = sut(pyf, f, spec, fcs[sub], bw, what=op + ".py_func")
-        require(close(out[:, sub], b, rtol=1e-12, atol=1e-14 * scale),
+        b = sut(pyf, f, spec_in, fcs[sub], bw, what=op + ".py_func")
+        require(close(out[:, sub], b, rtol=RT12, atol=max(RT12, 1e-14) * scale),
                 f"{op}: compiled kernel differs from its interpreted source (rel err {rel_err(out[:, sub], b):.3g})")
         labels.append("compiled-vs-interpreted")
 
